@@ -17,6 +17,15 @@ navigating the public structure of the spec (`elements`, `candidates`,
 `subchoice(i)`) in parallel with the model, never through ids or the
 library's own lookup tables.  The expected dictionary views are assembled from
 these records following the documented meaning of the to_dict options.
+
+Drivers: numbers/JSON views, dictionary views and lookups, alignment of DNAs
+handed out by the library, literal values of every form in the dictionary
+views (drv_literal_forms), search operators over the matrix of multi-choice
+kinds with mutation aimed at every decision point (drv_operator_matrix), and
+the history of the DNA object before a successful use_spec: refused bindings
+that were repaired, edits of bound DNAs, other specs first, children that are
+already bound (drv_binding_history).  Time budgets are CPU time, so a loaded
+machine does not change which cases are run.
 """
 import copy
 import itertools
@@ -60,6 +69,7 @@ def named_specs():
          leaf(2, name='t')),
       # a named point below a multi-choice: the name repeats per subchoice
       SP(CH(2, [SP(ONE([C, C], name='in')), C, C], False, False, name='out')),
+      SP(CH(2, [SP(FL(0.0, 1.0, 'fin'), CU('cin')), C], False, False)),
       # multi-choice whose candidates are conditional, with literals
       SP(CH(2, [S2, C, SM], True, False, lits=('s2', 'c', 'sm'))),
       SP(CH(2, [SP(leaf(2), FL(-1.0, 1.0)), C], False, True), CU('cu')),
@@ -254,6 +264,25 @@ def name_clash(recs):
   return any(len(v) > 1 for v in owners.values())
 
 
+def repeated_name_members(m, spec, mem):
+  """Members in which one name is answered more than once, differently (a
+  named point inside a candidate that several sub-choices picked)."""
+  out = []
+  for t in mem:
+    rs, _ = records(m, spec, t)
+    seen = {}
+    for rec in rs:
+      if rec.active and rec.name is not None and rec.parent is None:
+        seen.setdefault(rec.name, set()).add(tkey(rec.node))
+    if any(len(v) > 1 for v in seen.values()):
+      out.append(t)
+  return out
+
+
+NAME_COMBOS = [c for c in COMBOS if c[0] == 'name_or_id'
+               and c[1] in ('value', 'literal')]
+
+
 def expected_dict(recs, key_type, value_type, multi_key, include_inactive):
   """Expected to_dict() result: {key: normalised value}."""
   def key(dp, name):
@@ -415,7 +444,8 @@ def check_alignment(rec, m, spec, t, x, source, make_x):
                m, make_x + f'y = {rebuilt}\n'
                'def specs(n): return [n.spec] + [s for c in n.children for s in specs(c)]\n'
                'assert all(a is b for a, b in zip(specs(x), specs(y))), '
-               '[(a.id.path, b.id.path) for a, b in zip(specs(x), specs(y)) if a is not b]\n'
+               '[(a and a.id.path, b and b.id.path) for a, b in '
+               'zip(specs(x), specs(y)) if a is not b]\n'
                'assert x.to_dict() == y.to_dict(), (x.to_dict(), y.to_dict())'))
   return bad is None and ok
 
@@ -600,7 +630,7 @@ def check_lookups(rec, m, spec, t, d, rs):
 def drv_numbers_and_json(tier, seed):
   rec = Recorder(
       PROP, 'to_numbers / from_numbers / nested numbers / JSON are lossless',
-      scope=('15 named/literal/conditional/float/custom specs + 32 hand-picked '
+      scope=('16 named/literal/conditional/float/custom specs + 32 hand-picked '
              '+ 6 (thorough 60) seeded random conditional specs of weight<=4; '
              'specs (multi-element roots, inlined multi-choices, depth<=3, bare '
              'decision-point roots); members: all up to a cap (quick 8, '
@@ -633,7 +663,10 @@ def drv_dict_views(tier, seed):
              'combination); from_dict round trip: all 90 combinations on the '
              'first member of the first 6 (thorough 45) named specs and a '
              'rotating window of combinations on the others (every combination '
-             'is hit many times); lookups d[dp], d[id], d[KeyPath], d.get, '
+             'is hit many times); for the named specs up to 3 extra members in '
+             'which one name is answered more than once with different '
+             'decisions, round trip under all name keyed value/literal '
+             'combinations; lookups d[dp], d[id], d[KeyPath], d.get, '
              'd[name], spec[id], spec[name] for every decision point incl. '
              'inactive ones and multi-choice parents'))
   r = rng(seed, 'c12.dict')
@@ -646,11 +679,21 @@ def drv_dict_views(tier, seed):
   n_named = len(named_specs())
   # round-robin over specs so that a time cut never starves a spec class
   work = []
+  built = {}
+  repeated = set()
   for si, m in enumerate(specs):
-    for j, t in enumerate(sample_members(m, cap, r)):
+    sample = list(sample_members(m, cap, r))
+    if si < n_named:
+      # input class of its own: a repeated name answered more than once
+      built[si] = build(m)
+      rep = [t for t in repeated_name_members(m, built[si], members(m))
+             if t not in sample]
+      rep = rep if len(rep) <= 3 else r.sample(rep, 3)
+      repeated.update((si, tkey(t)) for t in rep)
+      sample += rep
+    for j, t in enumerate(sample):
       work.append((j, si, m, t))
   work.sort(key=lambda w: (w[0], w[1]))
-  built = {}
   full_budget = 6 if tier == 'quick' else 45
   for j, si, m, t in work:
     if time.process_time() - t0 > budget:
@@ -671,6 +714,8 @@ def drv_dict_views(tier, seed):
     else:
       combos = [COMBOS[(rot + i * 31) % len(COMBOS)] for i in range(window)]
       rot += 7
+    if (si, tkey(t)) in repeated:
+      combos = combos + [c for c in NAME_COMBOS if c not in combos]
     check_dict_roundtrip(rec, m, spec, t, d, combos)
   return rec.result()
 
